@@ -2,7 +2,7 @@ SPECIFICATION Spec
 CONSTANTS
   DataKeys = {2, 4}
   Targets = {3}
-  SeqNums = {1, 2}
+  SeqNums = {1, 3}
   Payloads = {"v1"}
   MaxIns = 4
   MaxH = 2
